@@ -218,7 +218,7 @@ int main(int argc, char **argv) {
         char sidec = 0;
         int  n = sscanf(line, "%31s", op);
         if (n < 1) continue;
-        alarm(20);
+        alarm(6); /* watchdog: the main thread must never block */
         if (!strncmp(op, "cb_", 3)) {
             sscanf(line, "%*s %ld", &a);
             if (!strcmp(op, "cb_new")) { cb = NULL; cb_make((uint32_t)a); printf("ok"); }
